@@ -279,6 +279,12 @@ def unit_scheme(idx, dim, with_solids, clean, codegen_paths=1):
         with patched_globals(module, table):
             paths = list(_explore_opts(run, stats))
         for path in paths:
+            if isinstance(path.exc, ValueError) and \
+                    "not supported" in str(path.exc):
+                # the scheme's default kernel rejects this dimension: not a
+                # shipped configuration
+                out["skipped"] = "%s in %d-D: %s" % (cls, dim, path.exc)
+                continue
             if path.exc is not None:
                 out.setdefault("harness_errors", []).append(
                     "%s with symbolic options raised %r" % (cls, path.exc))
